@@ -627,14 +627,27 @@ func (c *c34clock) advanceStall(d time.Duration, skip *c34ticker, outstanding fu
 		}
 	}
 	c.FakeClock.Advance(d)
-	for _, e := range due {
-		e := e
-		if !c34wait(func() bool { return e.t.entries.Load() >= e.want || (skip == nil && outstanding()) }) {
-			return false, nil, skippedDue
+	// Only the report goroutine can park on an outstanding ack, and while the ack is
+	// outstanding it cannot be back in its select. So: wait until every due goroutine is back,
+	// or until exactly one is not back while an ack is outstanding - that one is the parked
+	// report goroutine (a health goroutine that is merely still working is waited for).
+	notBack := func() []*c34ticker {
+		var nb []*c34ticker
+		for _, e := range due {
+			if e.t.entries.Load() < e.want {
+				nb = append(nb, e.t)
+			}
 		}
-		if e.t.entries.Load() < e.want {
-			stuck = e.t
-		}
+		return nb
+	}
+	if !c34wait(func() bool {
+		nb := notBack()
+		return len(nb) == 0 || (len(nb) == 1 && skip == nil && outstanding())
+	}) {
+		return false, nil, skippedDue
+	}
+	if nb := notBack(); len(nb) == 1 {
+		stuck = nb[0]
 	}
 	return true, stuck, skippedDue
 }
@@ -738,7 +751,7 @@ func c34loop(run *verifkit.Run, rng *verifkit.Rand, sample bool) {
 		cl.setScript(c34outcomes[outcome]...)
 		ok, stuck, _ := clock.advanceStall(time.Second, nil, cl.outstanding)
 		if !ok {
-			run.Inconclusive(stuckMsg)
+			run.Inconclusive(stuckMsg + " [main step; history kinds " + l.kinds.String() + "]")
 			return
 		}
 		collect()
@@ -758,7 +771,7 @@ func c34loop(run *verifkit.Run, rng *verifkit.Rand, sample bool) {
 			cl.setScript() // anything sent meanwhile (there should be nothing) would be accepted at once
 			ok, _, due := clock.advanceStall(time.Second, stuck, cl.outstanding)
 			if !ok {
-				run.Inconclusive(stuckMsg)
+				run.Inconclusive(stuckMsg + " [while an ack is outstanding; history kinds " + l.kinds.String() + "]")
 				return
 			}
 			if due {
@@ -783,7 +796,7 @@ func c34loop(run *verifkit.Run, rng *verifkit.Rand, sample bool) {
 	cl.setScript()
 	for s := time.Duration(0); s < hEvery+2*rEvery+time.Second; s += time.Second {
 		if !clock.advance(time.Second) {
-			run.Inconclusive("loop: a ticker goroutine did not come back to its select")
+			run.Inconclusive(stuckMsg + " [final flush; history kinds " + l.kinds.String() + "]")
 			return
 		}
 		collect()
